@@ -180,6 +180,23 @@ def t_join_inner(f, side="inner"):
     return [Join(CFG["u"], "==a", side=side)]
 
 
+def t_join_cond(f):
+    """join on an expression (this./that.) instead of the ==col shorthand"""
+    need(sum(1 for c in f.cols if c.name == "a") == 1)
+    need(all(c.rel != CFG["u"] for c in f.cols))
+    i = [n for n in f.ints() if "." not in n]
+    need("a" in i and len(i) >= 2)
+    other = [n for n in i if n != "a"][0]
+    ucol = [c for c in CFG["ucols"] if c != "a"][0]
+    return [Join(CFG["u"], (C("this.a") == C("that.a")) & (C("this." + other) >= C("that." + ucol)), side="inner")]
+
+
+def t_sort_expr(f):
+    """sort on an expression that is not a column of the frame, descending"""
+    i = f.ints(); need(len(i) >= 2)
+    return [Sort((True, C(i[0]) + C(i[1])), (False, C(i[0])))]
+
+
 def t_join_left(f):
     return t_join_inner(f, "left")
 
@@ -281,6 +298,7 @@ def t_group_const(f):
 
 
 ALPHABET = {
+    "join_cond": t_join_cond, "sort_expr": t_sort_expr,
     "agg_expr": t_agg_expr, "group_agg_expr": t_group_agg_expr, "group_const": t_group_const,
     "derive_case": t_derive_case, "filter_in": t_filter_in, "filter_or_null": t_filter_or_null, "derive_coalesce": t_derive_coalesce,
     "group2_agg": t_group2_agg, "join_v": t_join_v, "join_right": t_join_right, "join_full": t_join_full, "group_win_sum": t_group_win_sum,
@@ -785,7 +803,7 @@ def targeted_sort_join_take_family():
 
 def family_c03(tier, seed):
     """every pipeline (explicit-column head) that contains at least one sort, over the sort/take-centred alphabet"""
-    names = ["sort_asc", "sort_desc2", "sort_last_desc", "take_n", "take_2", "take_range", "take_open", "select_2", "select_comp", "select_first",
+    names = ["sort_asc", "sort_desc2", "sort_last_desc", "sort_expr", "take_n", "take_2", "take_range", "take_open", "select_2", "select_comp", "select_first",
              "select_last", "derive_add", "filter_gt", "filter_null", "join_inner", "join_left", "join_right", "join_full", "group_agg", "agg",
              "group_take", "rownum", "distinct"]
     out = []
